@@ -9,6 +9,19 @@ commands
         -> {"request":{...}, "result": {...}|null, "exc":[cls,msg]|null, "data": executed data, "obs": {...},
             "corruptions": [...]}
   {"cmd":"eval","code": "..."}  -> {"value": repr}   (small probes by property modules; code sees `pkg`, `mods`)
+  {"cmd":"call_args","method":py_name,"args":{kw: encoded},"intended":{var: json}}   (C03/C07)
+        -> {"request", "exc", "sent": {"coerced"|"errors","rec"}, "intended": {...}, "log_construct", "log_call"}
+  "call" with "frag_map": {result class name: [fragment class names]} additionally walks the returned object and
+        the response in parallel (C08): every object of a listed class must be an instance of each fragment class
+        (looked up in the fragments module) and that class alone must validate the same sub-payload
+        -> "frag": {"checked": n, "problems": [...]}
+  {"cmd":"hints"} -> {"methods": {py_name: {"params": {name: hint}, "return": hint, "field_hints": {...}}}}
+        type hints of every client method resolved the way a type checker sees them (the `if TYPE_CHECKING:`
+        imports of client.py executed into the lookup namespace)                                        (C15)
+  call with "c15": true additionally returns "value" (structural dump of ANY returned object, dump_any) and,
+        for a model result, "fields" {python field name: dump_any(attribute)}; async-generator methods
+        (subscriptions) are driven through a fake graphql-transport-ws connection that executes the SUBSCRIBED
+        query under plan seeds seed, seed+1, ... ("events": n) and the list of yielded values is returned.
 
 The reference executor is graphql-core `execute_sync` on the query text the client SENT, with resolvers scripted
 by a plan: {"k": int (rotates runtime types at abstract positions), "null": float prob, "lens": [list lengths],
@@ -105,7 +118,9 @@ def make_executor(sdl):
                     if under or has_cond(s):
                         keys.add(s.alias.value if s.alias else s.name.value)
                     if s.selection_set:
-                        walk(s.selection_set, False)
+                        # a conditional field node may be merged with an unconditional node of the same
+                        # response key: its sub-selection is then only conditionally present
+                        walk(s.selection_set, under or has_cond(s))
                 elif isinstance(s, InlineFragmentNode):
                     walk(s.selection_set, under or has_cond(s))
                 elif isinstance(s, FragmentSpreadNode):
@@ -118,7 +133,7 @@ def make_executor(sdl):
             walk(d.selection_set, False)
         return keys
 
-    def run(query, variables, operation_name, plan):
+    def run(query, variables, operation_name, plan, rec=None):
         from graphql import execute_sync, parse
 
         types = {}
@@ -127,6 +142,8 @@ def make_executor(sdl):
 
         def resolver(source, info, **args):
             pl = path_list(info.path)
+            if rec is not None and args:
+                rec.append(["/".join(map(str, pl)), _jsonable(args)])
             types[json.dumps(pl)] = {
                 "type": str(info.return_type),
                 "cond": pl[-1] in ckeys,
@@ -153,7 +170,10 @@ def decode(v):
         if "$unset" in v:
             return getattr(STATE["mods"]["base_model"], "UNSET")
         if "$enum" in v:
-            return getattr(pkg, v["$enum"][0])(v["$enum"][1])
+            cls = getattr(pkg, v["$enum"][0], None)
+            if cls is None:  # package without re-exports (NoReimports plugin): take it from its module
+                cls = next(getattr(m, v["$enum"][0]) for m in STATE["mods"].values() if hasattr(m, v["$enum"][0]))
+            return cls(v["$enum"][1])
         if "$model" in v:
             cls = getattr(STATE["mods"]["input_types"], v["$model"])
             return cls(**{k: decode(x) for k, x in v["kw"].items()})
@@ -231,6 +251,37 @@ def observe(obj, data, path, problems, stats):
         return  # parsed custom scalar: equality is C07's business
     if obj != data or (isinstance(data, bool) != isinstance(obj, bool)):
         problems.append({"path": path, "what": f"value {obj!r} != {data!r}"})
+
+
+# ----------------------------------------------------------------------------- fragment instances (C08)
+def frag_walk(obj, data, path, frag_map, fragments_mod, problems, stats):
+    from pydantic import BaseModel
+
+    if isinstance(obj, list) and isinstance(data, list):
+        for i, (o, d) in enumerate(zip(obj, data)):
+            frag_walk(o, d, path + [i], frag_map, fragments_mod, problems, stats)
+        return
+    if not isinstance(obj, BaseModel) or not isinstance(data, dict):
+        return
+    cname = type(obj).__name__
+    stats["objects"] = stats.get("objects", 0) + 1
+    for fname in frag_map.get(cname, []):
+        fcls = getattr(fragments_mod, fname, None) if fragments_mod else None
+        stats["checked"] = stats.get("checked", 0) + 1
+        if fcls is None:
+            problems.append({"path": path, "class": cname, "fragment": fname, "what": "fragment class missing from the fragments module"})
+            continue
+        if not isinstance(obj, fcls):
+            problems.append({"path": path, "class": cname, "fragment": fname, "what": "returned object is not an instance of the fragment class"})
+        try:
+            fcls.model_validate(data)
+        except BaseException as exc:  # noqa
+            problems.append({"path": path, "class": cname, "fragment": fname,
+                             "what": f"fragment class alone rejects the sub-payload: {type(exc).__name__}: {str(exc)[:200]}"})
+    for name, f in type(obj).model_fields.items():
+        key = f.alias or name
+        if key in data:
+            frag_walk(getattr(obj, name), data[key], path + [key], frag_map, fragments_mod, problems, stats)
 
 
 # ----------------------------------------------------------------------------- corruptions (C05)
@@ -339,6 +390,145 @@ def enumerate_corruptions(schema, data, types, limit, rng_seed):
     return out
 
 
+# ----------------------------------------------------------------------------- C15 helpers
+def dump_any(v):
+    """Structural, JSON-able image of whatever a client method returned (models, lists, enums, scalars)."""
+    from pydantic import BaseModel
+
+    if isinstance(v, BaseModel):
+        return {"$model": type(v).__name__, "module": type(v).__module__.split(".")[-1],
+                "dump": v.model_dump(mode="json", by_alias=True, exclude_unset=True)}
+    if isinstance(v, (list, tuple)):
+        return [dump_any(x) for x in v]
+    if isinstance(v, dict):
+        return {"$dict": {str(k): dump_any(x) for k, x in v.items()}}
+    if isinstance(v, enum.Enum):
+        return {"$enum": [type(v).__name__, v.value]}
+    if v is None or isinstance(v, (bool, int, float, str)):
+        return {"$t": type(v).__name__, "v": v}
+    return {"$repr": repr(v)[:300], "$t": type(v).__name__}
+
+
+class _FakeWs:
+    """Plays [connection_ack, next*n, complete]; records what the client sends."""
+
+    def __init__(self, req, box, captured):
+        self.req, self.box, self.captured = req, box, captured
+        self.sent = []
+        self.queue = None
+
+    async def send(self, text):
+        self.sent.append(json.loads(text))
+
+    async def recv(self):
+        return json.dumps({"type": "connection_ack"})
+
+    async def close(self, *a, **kw):
+        self.sent.append({"type": "$close"})
+
+    def _frames(self):
+        sub = next((m for m in self.sent if m.get("type") == "subscribe"), None)
+        if sub is None:
+            return []
+        payload = sub.get("payload", {})
+        self.captured.update(query=payload.get("query"), operationName=payload.get("operationName"),
+                             variables=payload.get("variables"), keys=sorted(payload), transport="ws",
+                             frames=[m.get("type") for m in self.sent])
+        plan = dict(self.req.get("plan") or {})
+        out = []
+        datas = []
+        for i in range(int(self.req.get("events", 2))):
+            pl = dict(plan, seed=plan.get("seed", 0) + i)
+            res, _types = STATE["run"](payload.get("query"), payload.get("variables"), payload.get("operationName"), pl)
+            if res.errors:
+                self.box.setdefault("exec_errors", []).extend(str(e) for e in res.errors)
+            datas.append(res.data)
+            out.append(json.dumps({"type": "next", "id": sub.get("id"), "payload": {"data": res.data}}))
+        self.box["data"] = datas
+        out.append(json.dumps({"type": "complete", "id": sub.get("id")}))
+        return out
+
+    def __aiter__(self):
+        self.queue = iter(self._frames())
+        return self
+
+    async def __anext__(self):
+        try:
+            return next(self.queue)
+        except StopIteration:
+            raise StopAsyncIteration
+
+
+def _patch_ws(client, req, box, captured):
+    """Replace ws_connect in the module defining the client's base class by a fake connection."""
+    import contextlib
+
+    for klass in type(client).__mro__:
+        mod = sys.modules.get(klass.__module__)
+        if mod is not None and hasattr(mod, "ws_connect"):
+            @contextlib.asynccontextmanager
+            async def fake_connect(*a, **kw):
+                yield _FakeWs(req, box, captured)
+
+            mod.ws_connect = fake_connect
+            return True
+    return False
+
+
+def _tc_namespace():
+    """globals of the generated client module + the names its `if TYPE_CHECKING:` block would import."""
+    import ast as _ast
+
+    mod = sys.modules[STATE["client_cls"].__module__]
+    ns = dict(vars(mod))
+    src = inspect.getsource(mod)
+    tree = _ast.parse(src)
+    errors = []
+    for node in tree.body:
+        if isinstance(node, _ast.If) and isinstance(node.test, _ast.Name) and node.test.id == "TYPE_CHECKING":
+            for st in node.body:
+                code = compile(_ast.Module(body=[st], type_ignores=[]), mod.__file__, "exec")
+                try:
+                    exec(code, ns)  # noqa: S102 (generated import statements)
+                except BaseException as exc:  # noqa
+                    errors.append(f"{_ast.unparse(st)}: {type(exc).__name__}: {exc}")
+    return ns, errors
+
+
+def _hrepr(h):
+    return f"{h.__module__}.{h.__qualname__}" if isinstance(h, type) and h.__module__ != "builtins" else repr(h)
+
+
+def cmd_hints(req):
+    cls = STATE["client_cls"]
+    ns, errors = _tc_namespace()
+    out = {"methods": {}, "tc_errors": errors}
+    for name, fn in vars(cls).items():
+        if name.startswith("_") or not callable(fn):
+            continue
+        try:
+            hints = typing.get_type_hints(fn, globalns=ns)
+            entry = {"params": {k: _hrepr(v) for k, v in hints.items() if k != "return"},
+                     "return": _hrepr(hints.get("return"))}
+        except BaseException as exc:  # noqa
+            entry = {"exc": [type(exc).__name__, str(exc)[:500]]}
+        out["methods"][name] = entry
+    # hints of the fields of every result class exported by the per-operation modules (for ShorterResults)
+    from pydantic import BaseModel
+
+    fh = {}
+    for mn, mod in STATE["mods"].items():
+        for cname, obj in vars(mod).items():
+            if isinstance(obj, type) and issubclass(obj, BaseModel) and obj.__module__ == mod.__name__:
+                try:
+                    fh[cname] = {k: _hrepr(v) for k, v in typing.get_type_hints(obj).items()
+                                 if k in obj.model_fields}
+                except BaseException as exc:  # noqa
+                    fh[cname] = {"$exc": f"{type(exc).__name__}: {exc}"}
+    out["field_hints"] = fh
+    return out
+
+
 # ----------------------------------------------------------------------------- commands
 def cmd_load(req):
     parent, pkgname = req["parent"], req["pkg"]
@@ -366,6 +556,7 @@ def cmd_load(req):
                     res["incomplete"].append(f"{mn}.{name}")
     res["all"] = list(getattr(pkg, "__all__", []))
     res["exported"] = [n for n in vars(pkg) if not n.startswith("_")]
+    res["all_missing"] = [n for n in res["all"] if not hasattr(pkg, n)]  # C04: names of __all__ that are not attributes
     STATE.update(pkg=pkg, mods=mods)
     cname = req.get("client_name", "Client")
     cls = getattr(pkg, cname, None)
@@ -444,11 +635,18 @@ def cmd_call(req):
         return out
     client = make_client(handler)
     fn = getattr(client, req["method"])
+    if inspect.isasyncgenfunction(fn):
+        _patch_ws(client, req, box, captured)
 
     def invoke():
         r = fn(**args)
         if inspect.iscoroutine(r):
             return asyncio.run(r)
+        if inspect.isasyncgen(r):
+            async def drain():
+                return [x async for x in r]
+
+            return asyncio.run(drain())
         return r
 
     try:
@@ -462,6 +660,13 @@ def cmd_call(req):
 
     out["data"] = box.get("data")
     out["exec_errors"] = box.get("exec_errors")
+    if req.get("c15"):
+        out["value"] = dump_any(result)
+        items = result if isinstance(result, list) and inspect.isasyncgenfunction(fn) else [result]
+        out["fields"] = [
+            {k: dump_any(getattr(it, k)) for k in type(it).model_fields} if isinstance(it, BaseModel) else None
+            for it in items
+        ]
     if isinstance(result, BaseModel):
         out["result"] = {
             "class": type(result).__name__,
@@ -471,6 +676,12 @@ def cmd_call(req):
             problems, stats = [], {}
             observe(result, box["data"], [], problems, stats)
             out["obs"] = {"problems": problems[:10], "stats": stats}
+        if req.get("frag_map") is not None and box.get("data") is not None:
+            problems, stats = [], {}
+            fm = dict(req["frag_map"])
+            frag_walk(result, box["data"], [], fm, STATE["mods"].get(req.get("fragments_module", "fragments")),
+                      problems, stats)
+            out["frag"] = {"problems": problems[:10], "stats": stats}
     else:
         out["result"] = {"class": type(result).__name__, "repr": repr(result)[:500]}
     if req.get("corrupt") and box.get("data") is not None and not box.get("exec_errors"):
@@ -505,6 +716,112 @@ def cmd_call(req):
     return out
 
 
+# ----------------------------------------------------------------------------- arguments (C03 / C07)
+def _jsonable(v):
+    """Coerced GraphQL values / resolver arguments -> JSON (enum values are their names under build_schema)."""
+    if isinstance(v, dict):
+        return {k: _jsonable(x) for k, x in v.items()}
+    if isinstance(v, (list, tuple)):
+        return [_jsonable(x) for x in v]
+    if isinstance(v, enum.Enum):
+        return v.value
+    if isinstance(v, (str, int, float, bool)) or v is None:
+        return v
+    return {"$repr": repr(v)}
+
+
+def _scalar_log(clear=True):
+    mod = sys.modules.get("vscal")
+    if mod is None:
+        return None
+    out = list(mod.LOG)
+    if clear:
+        mod.LOG.clear()
+    return out
+
+
+def cmd_call_args(req):
+    """Call a generated method; capture the request; coerce the SENT variables with graphql-core and execute the
+    SENT document with recording resolvers; do the same with the caller's INTENDED variables (GraphQL JSON form,
+    supplied by the harness) so the two can be compared.  Also returns the instrumented scalar call log."""
+    import httpx
+    from graphql import OperationDefinitionNode, execute_sync, parse
+    from graphql.execution.values import get_variable_values
+
+    schema = STATE["schema"]
+    captured = {}
+    _scalar_log()
+
+    def record_run(query, variables, opname):
+        doc = parse(query)
+        rec = []
+        op = [d for d in doc.definitions if isinstance(d, OperationDefinitionNode)][0]
+        cv = get_variable_values(schema, op.variable_definitions, variables or {})
+        if isinstance(cv, list):
+            return {"errors": [str(e.message)[:300] for e in cv], "rec": None}
+        try:
+            res, _types = STATE["run"](query, variables, opname, req.get("plan") or {"null": 0.0, "lens": [1]}, rec=rec)
+        except BaseException as exc:  # noqa  (e.g. the sent document lacks a fragment definition: C02's subject)
+            return {"coerced": _jsonable(cv), "rec": None, "exec_exc": [type(exc).__name__, str(exc)[:300]]}
+        return {"coerced": _jsonable(cv), "rec": rec, "exec_errors": [str(e.message)[:200] for e in (res.errors or [])][:3]}
+
+    def handler(request: httpx.Request):
+        body = request.content
+        captured["content_type"] = request.headers.get("content-type")
+        try:
+            payload = json.loads(body)
+            captured.update(query=payload.get("query"), operationName=payload.get("operationName"),
+                            variables=payload.get("variables"), has_variables="variables" in payload)
+        except Exception:
+            captured["raw"] = body[:2000].decode("latin-1")
+        return httpx.Response(200, json=req.get("response_body") or {"data": None, "errors": [{"message": "stop"}]})
+
+    out = {"request": captured, "exc": None}
+    try:
+        args = {k: decode(v) for k, v in (req.get("args") or {}).items()}
+    except BaseException as exc:  # noqa
+        out["exc"] = ["args:" + type(exc).__name__, str(exc)[:1500]]
+        return out
+    out["log_construct"] = _scalar_log()
+    client = make_client(handler)
+    fn = getattr(client, req["method"])
+    try:
+        r = fn(**args)
+        if inspect.iscoroutine(r):
+            r = asyncio.run(r)
+        if req.get("dump_result"):
+            out["result_repr"] = _result_repr(r)
+    except BaseException as exc:  # noqa
+        out["exc"] = [type(exc).__name__, str(exc)[:600]]
+    out["log_call"] = _scalar_log()
+    if captured.get("query") is not None:
+        try:
+            out["sent"] = record_run(captured["query"], captured.get("variables"), captured.get("operationName"))
+            if "intended" in req:
+                out["intended"] = record_run(captured["query"], req["intended"], captured.get("operationName"))
+        except BaseException as exc:  # noqa
+            out["reference_exc"] = [type(exc).__name__, str(exc)[:600], traceback.format_exc()[-800:]]
+    return out
+
+
+def _result_repr(r):
+    """Result model -> JSON-ish tree keeping python values of leaves (repr for non JSON-native ones)."""
+    from pydantic import BaseModel
+
+    if isinstance(r, BaseModel):
+        return {"$cls": type(r).__name__, "fields": {k: _result_repr(getattr(r, k)) for k in type(r).model_fields
+                                                      if k in r.model_fields_set}}
+    if isinstance(r, list):
+        return [_result_repr(x) for x in r]
+    if isinstance(r, enum.Enum):
+        return r.value
+    if isinstance(r, dict):
+        return {"$dict": {k: _result_repr(v) for k, v in r.items()}}
+    if isinstance(r, (str, int, float, bool)) or r is None:
+        return r
+    return {"$repr": repr(r)}
+
+
 def cmd_eval(req):
     env = {"pkg": STATE.get("pkg"), "mods": STATE.get("mods"), "STATE": STATE}
     try:
@@ -526,7 +843,8 @@ def main():
             continue
         req = json.loads(line)
         try:
-            res = {"load": cmd_load, "call": cmd_call, "eval": cmd_eval}[req["cmd"]](req)
+            res = {"load": cmd_load, "call": cmd_call, "eval": cmd_eval, "call_args": cmd_call_args,
+                   "hints": cmd_hints}[req["cmd"]](req)
         except BaseException as exc:  # noqa
             res = {"ok": False, "exc": ["driver." + type(exc).__name__, str(exc)[:1500]], "tb": traceback.format_exc()[-3000:]}
         real.write(json.dumps(res, default=str) + "\n")
